@@ -2,6 +2,7 @@
 CONSTANTS NSrc = 3  NLab = 3  Fissile = {1, 2}  MaxLevel = 6
 CONSTANT SrcList <- ListThorough
 ACTION_CONSTRAINT Emit
+CONSTANT IdOf <- IdOf3
 INIT Init
 NEXT Next
 CONSTRAINT Bound
